@@ -255,6 +255,7 @@ type vhMint struct {
 	Ppk          map[string]uint
 	Active       string
 	Spent        []string // secrets of consumed inputs, in order
+	Locked       []string // secrets locked by a melt whose payment is in flight (state PENDING)
 	SpentAmounts []uint64
 	Signed       []cashu.BlindedMessage
 	Sigs         cashu.BlindedSignatures
@@ -440,6 +441,11 @@ func vhHTTP(method, url string, body []byte) (int, []byte) {
 			if m.isSpent(p.Secret) {
 				return vhErr("proof already used", cashu.ProofAlreadyUsedErrCode)
 			}
+			for _, l := range m.Locked {
+				if l == p.Secret {
+					return vhErr("proofs are pending", cashu.StandardErrCode)
+				}
+			}
 		}
 		for _, o := range req.Outputs {
 			out += o.Amount
@@ -537,6 +543,12 @@ func vhHTTP(method, url string, body []byte) (int, []byte) {
 				Y, _ := crypto.HashToCurve([]byte(s))
 				if hex.EncodeToString(Y.SerializeCompressed()) == y {
 					st = nut07.Spent
+				}
+			}
+			for _, s := range m.Locked {
+				Y, _ := crypto.HashToCurve([]byte(s))
+				if st == nut07.Unspent && hex.EncodeToString(Y.SerializeCompressed()) == y {
+					st = nut07.Pending
 				}
 			}
 			resp.States = append(resp.States, nut07.ProofState{Y: y, State: st})
